@@ -53,6 +53,10 @@ Metric values are printed as `c/t` (accuracy: the two counts, never reduced; `0/
 structure St where
   cfg : Option EvCfg := none
   st : EvState := EvState.empty
+  /-- the evaluator objects of a session other than the current one: `(slot, cfg, state)`; `cur` is the slot of `cfg` / `st`.
+      A slot that was never filled holds no evaluator (`cfg = none`): a trainer compiled without one. -/
+  cur : Nat := 0
+  others : List (Nat × Option EvCfg × EvState) := []
 
 def parseMode? : String → Option Mode
   | "binary" => some .binary
@@ -135,7 +139,7 @@ def runS (w : St) (toks : List String) : St × String :=
   -- ev new <mode> <scale> <accuracy> <epoch callback|-> <step callback|->
   | ["ev", "new", mode, scale, acc, ecb, scb] =>
     match parseCfg? mode scale acc ecb scb with
-    | some (some cfg) => ({ cfg := some cfg, st := EvState.empty }, "ok")
+    | some (some cfg) => ({ w with cfg := some cfg, st := EvState.empty }, "ok")
     | _ => (w, "bad-op")
   -- ev step <prefix|-> <label rows> <score rows>
   | ["ev", "step", pre, labels, scores] =>
@@ -153,6 +157,25 @@ def runS (w : St) (toks : List String) : St × String :=
       ({ w with st := st }, s!"metrics={showMetrics ms} n={st.yTrue.length}")
     | none => (w, "bad-op")
   | ["ev", "reset"] => ({ w with st := evReset w.st }, "ok")
+  -- ev sel <slot> : the evaluator object the following commands talk to (several evaluators / trainers in one session)
+  | ["ev", "sel", k] =>
+    match parseNat? k with
+    | some k =>
+      if k = w.cur then (w, "ok") else
+      let saved := (w.cur, w.cfg, w.st) :: w.others.filter (fun e => e.1 != w.cur)
+      match saved.find? (fun e => e.1 == k) with
+      | some (_, cfg, st) => ({ cfg := cfg, st := st, cur := k, others := saved.filter (fun e => e.1 != k) }, "ok")
+      | none => ({ cfg := none, st := EvState.empty, cur := k, others := saved }, "ok")
+    | none => (w, "bad-op")
+  -- sfit <hasVal> <epoch>* : one more `fit` call of a trainer compiled with the CURRENT evaluator object (none if the slot is empty);
+  --   the history it returns and the state it leaves the evaluator in (a call that raises leaves the model's state alone: not modelled)
+  | "sfit" :: hv :: eps =>
+    match parseBool? hv, eps.mapM parseEpoch? with
+    | some hv, some ds =>
+      match Call.run w.cfg w.st (.fit hv ds) with
+      | some (st, .hist h) => ({ w with st := st }, s!"hist={showHist h} n={st.yTrue.length}")
+      | _ => (w, "rejected")
+    | _, _ => (w, "bad-op")
   | ["ev", "state"] => (w, s!"ytrue={showIntList w.st.yTrue} ypred={showIntList w.st.yPred}")
   -- hist <mode|-> <scale> <accuracy> <epoch cb|-> <step cb|-> <hasVal> <y_true found> <y_pred found> <epoch>*
   --   epoch = <batch>+<batch>…|<batch>+… (training | validation), batch = <num:den>@<label rows>@<score rows>
